@@ -36,6 +36,35 @@ prop('C14', 'model_checking', 'exhaustive byte-flip coverage sweep over checksum
      '(c) crc32c/crc32-be/crc16 equal bit-at-a-time polynomial division for every length 0..300 x alignment 0..7 x 3 seeds x {patterns, every single-bit buffer, all 2-byte buffers}.',
      'journal block checksums are covered by C03; MMP follows the documented PR_NO_OK exception; two known findings (group-descriptor damage exits 0, uninit-group metadata bits) shared with C02.', '4/C14')
 
+prop('C05', 'model_checking', 'exhaustive sweeps: every directory size 0..400 x name sequences x repair modes, every file block count 0..300, every single-field summary-only corruption; independent tree-digest oracle',
+     '(a) every corpus image x the five repair modes; (b) a test directory holding the first n names of a fixed sequence for every n in 0..400 (short, 252-byte and mixed names; linear, indexed, csum, inline, bigalloc bases) x modes; '
+     '(c) a file of every block count 0..300 x {-E bmap2extent, -D}; (d) every single-field mutant confined to bitmap bits, free/used counts, descriptor flags and checksum fields x e2fsck -fy. '
+     'Oracle: exit status in {0,1} and the independent reader\'s tree (path, type, bytes, size, mode, owner, nlink, symlink target, xattrs) identical before and after; for (d) additionally a clean second run.',
+     'small images (1 KiB blocks, <= 4 MiB); quick thins (b)/(c) to a stride outside the first 120 sizes / 30 block counts; casefold/encrypted directories not in scope.', '4/C05')
+prop('C08', 'model_checking', 'exhaustive sweep over every target size (1-block steps) per populated corpus image + option variants; write-trace prefix enumeration for the error-flag invariant',
+     'Every target size from 64 blocks to 3x the current size (or +6 groups) in 1-block steps for each populated corpus image, plus -M, -P, -b/-s, -S: success => reported size = s_blocks_count, e2fsck -fn = 0, independent checker clean, '
+     'independent tree digest unchanged; refusal => byte-identical image; failure in mid-run => primary superblock flagged; on traced runs every prefix of the recorded device-write sequence is checked for the has-errors flag invariant.',
+     'quick: 3 bases and all sizes within 6 blocks of a group boundary or of the current size plus every 13th; thorough: 13 bases, every size. Crash points are prefixes of the write trace (no reordering), as the property states.', '4/C08')
+prop('C19', 'model_checking', 'exhaustive sweep over every filesystem size in a 1100-block window (crossing every qcow2 L2/refcount boundary) x corpus feature classes x e2image modes; metadata-block-set oracle from the independent layout reader',
+     'For every corpus image and for a populated filesystem of every size in a 1100-block window: e2image -r, -Q, -Q then -r, -ra. Oracle: every metadata block (set computed by the independent reader) byte-identical in the raw image, '
+     'e2fsck -fn and dumpe2fs outputs identical on source and image, qcow2->raw equals the direct raw image byte for byte, -ra keeps every file (independent tree digest) and all primary metadata, source bytes unchanged after every run.',
+     'quick: every 3rd size plus +-1 around every multiple of 128 and 512 blocks; 1 KiB blocks only for the size sweep.', '4/C19')
+prop('C20', 'model_checking', 'exhaustive product group count 1..50 x 9 backup layouts x block sizes, with resize2fs/tune2fs/e2fsck transitions; per state: exact backup set vs format rule and recovery from every backup location',
+     'For every geometry of the product and after each tool transition: the set of groups whose first block carries a current superblock copy equals exactly the set the independent reader derives from the format rule (0, 1, powers of 3/5/7; '
+     'the sparse_super2 pair; all groups without sparse_super), each copy is current (geometry, features, checksum); and for every such location, with the primary superblock and descriptors zeroed, e2fsck -fy -b <loc> -B <bs> exits <= 1, '
+     'a following e2fsck -fn exits 0 and every file is intact; with default group size plain e2fsck finds the backup itself.',
+     'quick: 1 KiB blocks, group counts 1..12, 24..28, 49, 50; thorough adds 2 KiB and 4 KiB blocks and all counts 1..50. lost+found differences are ignored.', '4/C20')
+
+prop('C03', 'model_checking', 'exhaustive enumeration of generated journals (transaction shapes x tag/checksum formats x one deviation at every log position x every wrap point x sequence anomalies) replayed by both front-ends against an independent byte-level reference recovery model',
+     'Journals are produced by an independent JBD2 writer (tools/xck/jbd2.py) into the log of corpus images (internal block-mapped, internal extent-mapped, external device): all shapes (logged subset x revoked subset x revoke position over 3 targets) for up to 2 (thorough 3) transactions, '
+     'all 32 format combinations (32/64-bit tags x no/v1/v2/v3 checksums x async commit x per-tag UUIDs), one deviation (zeroed, stale-sequence, wrong-type block, byte flips in header/tag/record/checksum/payload) at every log position, every wrap point, sequence gaps/repeats/2^32 wrap, '
+     'escaped blocks; every log ends in an uncommitted transaction. Each journal is replayed by e2fsck and by debugfs jr; every block of the result must equal the reference model\'s image, the journal must be empty, needs_recovery clear and the two results identical.',
+     'model trace validation: every generated journal (= model trace) is executed on both implementations. Checksum-invalid descriptor/revoke blocks make recovery refuse the whole journal (kernel semantics): there only the property\'s upper bound is asserted. Fast commit not covered.', '4/C03')
+prop('C04', 'fault_enumeration', 'exhaustive crash-point enumeration: every prefix of the recorded device-write/fsync trace of a recovery x every subset of not-yet-flushed writes lost, invariant on each crash image and differential re-run',
+     'For each journal of a family (all two-transaction shapes over two targets, 12-block transactions that overflow the block cache, wrapped logs; two formats) and each front-end (e2fsck journal-only, e2fsck -fy, debugfs jr) the write/fsync trace is recorded from the unmodified binary; '
+     'every crash image (prefix x lost subset of the unflushed window; all subsets up to 10 pending writes) is checked: I1 journal-empty or needs_recovery-clear implies all replayed blocks are final on that image; I2 re-running recovery reproduces the uninterrupted result.',
+     'block-granular crash model (a pwrite is durable or lost as a whole; durability at the next fsync). When a crash tears the byte-granular primary-superblock update the re-run uses e2fsck -b <backup> as documented. Internal journals only.', '4/C04')
+
 def main():
     props = [json.loads(l) for l in open(os.path.join(V, 'properties.jsonl'))]
     checks, na = [], []
